@@ -240,9 +240,29 @@ def run_case(case):
     if case.get("sub") == "e4_canary":
         return e4_canary(out)
     w = World(case)
+    import yowsup.axolotl.manager as _M
+    real_random = _M.random
+    if case.get("draws") in ("lowest", "highest"):
+        # where the library asks for a random number in a range (the padding length of a message), every number of that range is a
+        # possible answer: here it gets the lowest / the highest one the function it calls could return, every time
+        lowest = case["draws"] == "lowest"
+
+        class _Extreme(object):
+            def __getattr__(self, name):
+                return getattr(real_random, name)
+
+            def randint(self, a, b):
+                return a if lowest else b
+
+            def randrange(self, *a):
+                r = range(*a)
+                return r[0] if lowest else r[-1]
+        _M.random = _Extreme()
+        out.label("random_draws=" + case["draws"])
     try:
         return _run(case, out, w)
     finally:
+        _M.random = real_random
         w.close()
 
 
@@ -682,6 +702,7 @@ def script_strategy(tier):
     def build(draw):
         n = draw(st.integers(2, 4))
         return {"sub": "conversation", "accounts": n, "seed": draw(st.integers(0, 2 ** 31 - 1)),
+                "draws": draw(st.sampled_from([None, None, None, "lowest", "highest"])),
                 "registered": draw(st.lists(st.sampled_from([True, True, True, False]), min_size=n, max_size=n)),
                 "groups": [draw(st.lists(st.integers(0, n - 1), min_size=2, max_size=n, unique=True)),
                            draw(st.lists(st.integers(0, n - 1), min_size=2, max_size=n, unique=True))],
@@ -691,6 +712,10 @@ def script_strategy(tier):
 
 def _enum_basic():
     o = {"a": True, "b": True, "pad": 0}
+    for draws in ("lowest", "highest"):
+        yield {"sub": "conversation", "accounts": 3, "registered": [True, True, True], "groups": [[0, 1, 2], [0, 1, 2]], "draws": draws,
+               "ops": [["send", 0, 1, "text", o], ["send", 1, 0, "text", o], ["send", 0, 1, "link", o], ["send", 2, "g0", "text", o],
+                       ["send", 2, "g0", "location", o], ["send", 1, "g0", "text", o]]}
     yield {"sub": "conversation", "accounts": 2, "registered": [True, True], "groups": [[0, 1], [0, 1]],
            "ops": [["send", 0, 0, "text", o], ["send", 1, 0, "text", o], ["send", 0, 0, "image", o], ["send", 0, 0, "location", o],
                    ["send", 1, 0, "contact", o], ["send", 1, 0, "link", o]]}
@@ -741,3 +766,4 @@ def plan(tier):
     }
 
 RULE += (' Corruption also as a chosen bit pattern at a chosen position (xor), incl. version-byte patterns; a zero-valued location (equator / prime meridian / heading 0); `burst`: more than 100 acknowledged messages of one sender before a damaged one; presence of explicitly set zero / empty values is compared strictly.')
+RULE += (" In two fifths of the conversations the library's random draws for message padding return the lowest / the highest value of the range asked for (draws).")
